@@ -541,6 +541,36 @@ fn copy_forms<S: BitmapSlice>(k: &K, layer: &str, vs: &VolatileSlice<S>, snapsho
         }
     }
     zst_types!(zst_copy, [_], k, layer, vs, snapshot);
+    // a zero-sized element loaded or stored through a typed accessor at every offset (so at every
+    // alignment of the element address: a zero-sized type may ask for more than one byte of it)
+    fn zst_elem<T: ByteValued, S: BitmapSlice>(k: &K, layer: &str, vs: &VolatileSlice<S>, snapshot: &dyn Fn() -> Vec<u8>, name: &str) {
+        let len = vs.len();
+        for o in (0..=len.min(9)).chain([len / 2, len.saturating_sub(1), len]) {
+            if o > len {
+                continue;
+            }
+            let args = format!("slice len {} element {} at offset {}", len, name, o);
+            k.form(layer, "VolatileRef::load/store(zero-sized element)", "whole", args.clone(), snapshot, &mut || {
+                let r = vs.get_ref::<T>(o).map_err(|e| format!("get_ref refused: {:?}", e))?;
+                let v = r.load();
+                r.store(v);
+                Ok(())
+            });
+            for cnt in [1usize, 3, 70000] {
+                k.form(layer, "VolatileArrayRef::load/store(zero-sized element)", "whole", format!("{} array of {} elements", args, cnt), snapshot, &mut || {
+                    let a = vs.get_array_ref::<T>(o, cnt).map_err(|e| format!("get_array_ref refused: {:?}", e))?;
+                    for i in [0, cnt - 1] {
+                        let v = a.load(i);
+                        a.store(i, v);
+                        let r = a.ref_at(i);
+                        r.store(r.load());
+                    }
+                    Ok(())
+                });
+            }
+        }
+    }
+    zst_types!(zst_elem, [_], k, layer, vs, snapshot);
     for o in [0usize, len / 2, len] {
         let args = format!("slice len {} offset {} empty buffer / zero count", len, o);
         k.form(layer, "copy_to(&mut [] of u8)", "whole", args.clone(), snapshot, &mut || {
